@@ -29,6 +29,38 @@ class PropBase:
     # the per-class quick_per_shard values were calibrated for ~1-2 s runs; the quick tier runs three times that
     QUICK_MULT = 3
 
+    # probability that a random scenario gets partial passes mixed in: process(do_rx=False) / process(do_tx=False) are public, the threaded
+    # layer itself runs transmit-only passes, and "any timing of process() calls" includes them (C10 names them).  A full pass is either
+    # kept or gets an extra transmit-only pass before and / or after it.  Receive-only passes are NOT mixed in: no property quantifies over
+    # them and a Flow Control read by one can be lost (DESIGN 11.3, observation `C10.fc_lost_witness`).
+    partial_passes = 0.0
+
+    def mix_partial_passes(self, rng, sc):
+        if not self.partial_passes or rng.random() >= self.partial_passes:
+            return sc
+        q = rng.choice([0.1, 0.3, 0.8])
+        ops = []
+        n = 0
+        for k, op in enumerate(sc['ops']):
+            op = dict(op, _o=k)         # index in the scenario as generated (judges that reason with op indices map through it)
+            if op.get('op') != 'process' or 'rx' in op or 'tx' in op or rng.random() >= q:
+                ops.append(op)
+                continue
+            n += 1
+            txo = dict(op, rx=False)
+            how = rng.randrange(3)
+            if how == 0:
+                ops += [txo, op]
+            elif how == 1:
+                ops += [op, txo]
+            else:
+                ops += [txo, op, txo]
+        if n:
+            sc = dict(sc, ops=ops)
+            sc.setdefault('tags', [])
+            sc['tags'] = list(sc['tags']) + ['partial_passes']
+        return sc
+
     def budget(self, tier, scale):
         n = self.quick_per_shard * self.QUICK_MULT if tier == 'quick' else self.thorough_per_shard
         return max(1, int(n * scale))
@@ -61,7 +93,7 @@ class PropBase:
                 sc.setdefault('tags', []).append('enumerated')
                 yield sc
         for k in range(self.budget(tier, scale)):
-            yield self.scenario(rng, tier)
+            yield self.mix_partial_passes(rng, self.scenario(rng, tier))
 
     def scenario(self, rng, tier):
         raise NotImplementedError
@@ -81,6 +113,8 @@ class PropBase:
     def tally(self, dist, sc, lines_in, impl_out):
         if 'enumerated' in sc.get('tags', ()):
             dist['enumerated_scenarios'] = dist.get('enumerated_scenarios', 0) + 1
+        if 'partial_passes' in sc.get('tags', ()):
+            dist['scenarios_with_partial_passes'] = dist.get('scenarios_with_partial_passes', 0) + 1
         for l in lines_in:
             k = 'op:' + l.split(' ', 1)[0]
             dist[k] = dist.get(k, 0) + 1
